@@ -9,6 +9,7 @@ and PYTHONHASHSEED=0.  Equality is up to names of generated auxiliary symbols.""
 import json
 import os
 import random
+import re
 import subprocess
 import sys
 from fractions import Fraction
@@ -70,18 +71,30 @@ def generate(seed, tier):
         rng = random.Random(cs)
         hostile = (i % 5 == 4)
         inv = (i % 4 == 1)
-        target, feats = make_job(cs, rng, hostile=hostile, invariants=inv and not hostile)
+        guarded_target = (i % 3 == 0)
+        target, feats = make_job(cs, rng, profile=rng.choice(["guarded", "counter", "guarded"]) if guarded_target else None,
+                                 hostile=hostile, invariants=inv and not hostile and not guarded_target)
+        if guarded_target:
+            target["after_loop"] = True
+            target["goals"] = target["goals"][:2]
+            feats = feats + ["after-loop-target"]
         if inv:
             target["goals"] = [g for g in target["goals"] if sum(g.values()) == 1][:2] or target["goals"][:1]
         others = []
         for j in range(rng.choice([3, 4, 5])):
-            kind = rng.choice(["func", "guard", "aux", "gen", "gen", "same-dists"])
+            kind = rng.choice(["func", "guard", "aux", "gen", "gen", "same-dists", "same-dists"])
             if kind == "func":
                 others.append({"id": "B-func", "text": FUNC_PROG, "goals": [{"y": 1}, {"x": 1}], "settings": {}, "N": 2, "values": {}, "source_vars": ["x", "y", "u", "s"]})
             elif kind == "guard":
                 others.append({"id": "B-guard", "text": GUARD_PROG, "goals": [{"steps": 1}], "settings": {}, "N": 2, "values": {}, "source_vars": ["stop", "steps"]})
             elif kind == "aux":
                 others.append({"id": "B-aux", "text": AUX_PROG, "goals": [{"x": 1}], "settings": {}, "N": 2, "values": {}, "source_vars": ["a", "b", "c", "x"]})
+            elif kind == "same-dists" and target.get("after_loop") and re.search(r"(Bernoulli\(|\{)\d+/\d+", target["text"]):
+                # the SAME guard text over a loop that stops with a different probability (memoised guard moments would collide)
+                b = dict(target)
+                b["id"] = "B-same-guard"
+                b["text"] = re.sub(r"(Bernoulli\(|\{)(\d+)/(\d+)", lambda m: m.group(1) + "1/7", target["text"], count=1)
+                others.append(b)
             elif kind == "same-dists":
                 # the same program text with different goals: same finite value tuples / distributions -> lru caches are warm
                 b = dict(target)
@@ -109,6 +122,8 @@ def generate(seed, tier):
             others.append({"id": "B-aux", "text": AUX_PROG, "goals": [{"x": 1}], "settings": {}, "N": 1, "values": {}, "source_vars": ["a", "b", "c", "x"]})
         cases.insert(2 * j + 1, {"id": f"synth-{cs}", "target": target, "others": others, "perm": [], "features": ["synth-inv-order", f"history:{len(others)}"],
                                  "text": NLM_PROG})
+    for k, sc in enumerate(scenario_cases(seed, tier)):
+        cases.insert(min(len(cases), 3 * k), sc)
     return cases
 
 
@@ -132,7 +147,30 @@ def run_jobs(jobs, hashseed, timeout):
 
 def summary(r):
     return {"goals": r.get("goals"), "types": r.get("types"), "refusal": r.get("refusal"), "invariants": r.get("invariants"),
-            "synth": r.get("synth")}
+            "synth": r.get("synth"), "termination": r.get("termination"), "cli_blocks": r.get("cli_blocks")}
+
+
+def same_ideal(b1, b2):
+    """two invariant bases (lists of polynomial strings) generate the same ideal: mutual reduction to 0"""
+    if not isinstance(b1, list) or not isinstance(b2, list):
+        return b1 == b2
+    if not b1 or not b2:
+        return not b1 and not b2
+    import sympy
+    loc = {}
+    def parse(t):
+        # goal symbols are written E(x): turn them into plain symbols
+        import re
+        t2 = re.sub(r"E\(([^()]*)\)", lambda m: "E_" + re.sub(r"[^A-Za-z0-9_]", "_", m.group(1)), t)
+        return sympy.sympify(t2)
+    p1, p2 = [parse(t) for t in b1], [parse(t) for t in b2]
+    syms = sorted(set().union(*[p.free_symbols for p in p1 + p2]), key=str)
+    try:
+        g1 = sympy.groebner(p1, *syms, order="grevlex")
+        g2 = sympy.groebner(p2, *syms, order="grevlex")
+        return all(g1.reduce(q)[1] == 0 for q in p2) and all(g2.reduce(q)[1] == 0 for q in p1)
+    except Exception:
+        return False
 
 
 def diff(ref, alt):
@@ -146,14 +184,106 @@ def diff(ref, alt):
             out.append(f"E({g}): reference {json.dumps(rv)[:160]} vs {json.dumps(av)[:160]}")
     if ref.get("types") != alt.get("types"):
         out.append(f"types: reference {json.dumps(ref.get('types'))[:200]} vs {json.dumps(alt.get('types'))[:200]}")
+    if ref.get("termination") != alt.get("termination"):
+        out.append(f"moments given termination: reference {json.dumps(ref.get('termination'))[:200]} vs {json.dumps(alt.get('termination'))[:200]}")
     if ref.get("synth") != alt.get("synth"):
         out.append(f"synthesized invariants (order matters): reference {ref.get('synth')} vs {alt.get('synth')}")
-    if ref.get("invariants") != alt.get("invariants"):
+    if ref.get("invariants") != alt.get("invariants") and not same_ideal(ref.get("invariants"), alt.get("invariants")):
         out.append(f"invariants: reference {str(ref.get('invariants'))[:200]} vs {str(alt.get('invariants'))[:200]}")
     return out
 
 
+def scenario_cases(seed, tier):
+    """targeted histories for the process-global state named in the property's anchors"""
+    out = []
+    n = 2 if tier == "quick" else 12
+    for j in range(n):
+        cs = K.harness_seed(seed, ID + "-scn", j)
+        r = random.Random(cs)
+        # (i) several benchmark files in ONE CLI invocation that share a goal monomial
+        a0, a1, m = r.choice([0, 1, 2]), r.choice([1, 3]), r.choice([2, 3])
+        fA = f"x = {a0}\ny = 0\nwhile true:\n    x = x + {a1} {{1/2}} x - 1\n    y = y + x\nend\n"
+        fB = f"x = 1\ny = {a0}\nwhile true:\n    x = {m}*x\n    y = y + 1 {{1/3}} y + x\nend\n"
+        goals = ["E(x)", "E(y)", "E(x**2)"]
+        out.append({"id": f"scn-cli-{cs}", "scenario": {
+            "ref": {"jobs": [{"id": "cli-single", "cli": {"files": [fB], "goals": goals, "at_n": 3}}], "pick": ["cli_blocks", 0]},
+            "alts": [{"label": "polar.py A.prob B.prob (B is the 2nd benchmark of one invocation)", "hashseed": 0,
+                      "jobs": [{"id": "cli-multi", "cli": {"files": [fA, fB], "goals": goals, "at_n": 3}}], "pick": ["cli_blocks", 1]},
+                     {"label": "polar.py B.prob A.prob B.prob", "hashseed": 1,
+                      "jobs": [{"id": "cli-multi3", "cli": {"files": [fB, fA, fB], "goals": goals, "at_n": 3}}], "pick": ["cli_blocks", 2]}]},
+            "features": ["scenario:cli-several-benchmarks"], "text": fB})
+        # (ii) the same variable name with different non-binary finite value sets, power >= number of values
+        v1 = r.choice([[0, 1, 3], [0, 2, 3], [1, 2, 4]])
+        v2 = r.choice([[0, 1, 2], [0, 1, 4], [1, 3, 4]])
+        def fin_prog(vals):
+            return (f"c = {vals[0]}\nx = 0\nwhile true:\n    c = {vals[0]} {{1/3}} {vals[1]} {{1/3}} {vals[2]}\n    x = x + c**3\nend\n")
+        jobA = {"id": "A-fin", "text": fin_prog(v1), "goals": [{"x": 1}, {"c": 3}, {"c": 4}], "settings": {}, "N": 3, "values": {}, "source_vars": ["c", "x"]}
+        jobB = {"id": "B-fin", "text": fin_prog(v2), "goals": [{"x": 1}, {"c": 3}, {"c": 4}], "settings": {}, "N": 3, "values": {}, "source_vars": ["c", "x"]}
+        out.append({"id": f"scn-fin-{cs}", "scenario": {
+            "ref": {"jobs": [jobB], "pick": ["job", 0]},
+            "alts": [{"label": f"after a program where c has values {v1}", "hashseed": 0, "jobs": [jobA, jobB], "pick": ["job", 1]},
+                     {"label": f"after two programs, PYTHONHASHSEED=2", "hashseed": 2, "jobs": [jobA, jobA, jobB], "pick": ["job", 2]}]},
+            "features": ["scenario:same-name-different-finite-type"], "text": jobB["text"]})
+        # (iii) exact_func_moments: functional assignment only in the initial block, after a program with one in the loop
+        k = r.choice([1, 2, 3])
+        fn = r.choice(["Cos", "Sin", "Exp"])
+        st = {"exact_func_moments": True}
+        jA = {"id": "A-func", "text": FUNC_PROG, "goals": [{"y": 1}], "settings": st, "N": 2, "values": {}, "source_vars": ["x", "y", "u", "s"]}
+        jB = {"id": "B-func-init", "text": f"y = {fn}({k})\nx = 0\nwhile true:\n    x = x + y\nend\n", "goals": [{"x": 1}], "settings": st, "N": 3,
+              "values": {}, "source_vars": ["x", "y"]}
+        jC = {"id": "C-plain", "text": GUARD_PROG, "goals": [{"steps": 1}], "settings": st, "N": 2, "values": {}, "source_vars": ["stop", "steps"]}
+        out.append({"id": f"scn-exact-{cs}", "scenario": {
+            "ref": {"jobs": [jB], "pick": ["job", 0]},
+            "alts": [{"label": "after a program with Sin in the loop body (exact_func_moments on)", "hashseed": 0, "jobs": [jA, jB], "pick": ["job", 1]},
+                     {"label": "after a program without functional assignments", "hashseed": 0, "jobs": [jC, jB], "pick": ["job", 1]}]},
+            "features": ["scenario:exact-func-moments-flag"], "text": jB["text"]})
+    return out
+
+
+def run_scenario(case, tier):
+    sc = case["scenario"]
+    res = {"fingerprint": K.fingerprint(case["id"], case["text"]), "features": case["features"], "events": {}, "violations": [],
+           "comparisons": 0, "refusals": [], "extra": {}}
+    per = 60 if tier == "quick" else 150
+
+    def pick(out, spec):
+        if spec[0] == "job":
+            return summary(out[spec[1]])
+        blocks = out[0].get("cli_blocks")
+        if not isinstance(blocks, list) or len(blocks) <= spec[1]:
+            return {"cli_blocks": blocks}
+        return {"cli_block": blocks[spec[1]]}
+    ref_out, err = run_jobs(sc["ref"]["jobs"], 0, per)
+    if ref_out is None:
+        res.update(verdict="inconclusive", reason="reference-" + err.split(":")[0])
+        return res
+    ref = pick(ref_out, sc["ref"]["pick"])
+    res["events"]["fresh-process-analysis"] = 1
+    done = 0
+    for alt in sc["alts"]:
+        out, err = run_jobs(alt["jobs"], alt.get("hashseed", 0), per * len(alt["jobs"]))
+        if out is None:
+            res["extra"]["run-" + err.split(":")[0]] = res["extra"].get("run-" + err.split(":")[0], 0) + 1
+            continue
+        done += 1
+        res["events"]["history-run"] = res["events"].get("history-run", 0) + 1
+        got = pick(out, alt["pick"])
+        res["comparisons"] += 1
+        if got != ref:
+            res["violations"].append({"kind": "result-depends-on-history", "key": None, "run": alt["label"],
+                                      "detail": f"{alt['label']}: fresh single run gives {json.dumps(ref)[:350]} but here {json.dumps(got)[:350]}"})
+    if done == 0:
+        res.update(verdict="inconclusive", reason="no-history-run-completed")
+        return res
+    res["nontrivial"] = True
+    res["verdict"] = "violated" if res["violations"] else "held"
+    res["sample"] = {"scenario": case["features"][0], "target": case["text"], "histories": [a["label"] for a in sc["alts"]], "reference": ref}
+    return res
+
+
 def run_case(case, tier):
+    if "scenario" in case:
+        return run_scenario(case, tier)
     A = case["target"]
     res = {"fingerprint": K.fingerprint(A["text"], A["goals"], [o["id"] for o in case["others"]]), "features": case["features"],
            "events": {}, "violations": [], "comparisons": 0, "refusals": [], "extra": {}}
